@@ -35,11 +35,21 @@ struct weekday {
 
     constexpr auto operator++() noexcept -> weekday& { return *this += etl::chrono::days{1}; }
 
-    constexpr auto operator++(int) noexcept -> weekday { return *this += etl::chrono::days{1}; }
+    constexpr auto operator++(int) noexcept -> weekday
+    {
+        auto tmp = *this;
+        ++(*this);
+        return tmp;
+    }
 
     constexpr auto operator--() noexcept -> weekday& { return *this -= etl::chrono::days{1}; }
 
-    constexpr auto operator--(int) noexcept -> weekday { return *this -= etl::chrono::days{1}; }
+    constexpr auto operator--(int) noexcept -> weekday
+    {
+        auto tmp = *this;
+        --(*this);
+        return tmp;
+    }
 
     constexpr auto operator+=(days const& d) noexcept -> weekday&
     {
